@@ -471,6 +471,14 @@ class Interp:
         w.ev("e", t, opid, ["ok", r])
 
     async def op_try(self, t, op, opid):
+        # (a re-wrapped cancellation is raised from outside the handler, so that its __context__
+        # chain is exactly the one built below)
+        box = []
+        await self._op_try(t, op, opid, box)
+        if box:
+            raise box[0]
+
+    async def _op_try(self, t, op, opid, box):
         w = self.w
         body, o = op[1], op[2]
         try:
@@ -482,6 +490,21 @@ class Interp:
             w.ev("x", t, opid, "caught", [], classify(e))
             self.caught[t] = e
             await self.run_ops(t, on, opid + "c")
+            if o.get("rewrap"):
+                # user code that catches the cancellation and raises a fresh CancelledError
+                # with its own message, `rewrap` times over (the original stays reachable
+                # through the __context__ chain only)
+                cur = e
+                for k in range(o["rewrap"]):
+                    try:
+                        try:
+                            raise cur
+                        except CancelledError:
+                            raise CancelledError(f"wrapped again ({k})")
+                    except CancelledError as e2:
+                        cur = e2
+                box.append(cur)
+                return
             if o.get("reraise", True):
                 raise
         except Boom as e:
